@@ -968,7 +968,13 @@ pub(crate) fn verify_tau(
         let start_epoch_difficulty = start_block_difficulty * start_epoch.length();
         let end_epoch_difficulty = end_block_difficulty * end_epoch.length();
         // How many times are epochs switched?
-        let epochs_switch_count = end_epoch.number() - start_epoch.number();
+        let epochs_switch_count = match end_epoch.number().checked_sub(start_epoch.number()) {
+            Some(count) => count,
+            None => {
+                error!("failed: the end epoch is earlier than the start epoch");
+                return Err(StatusCode::InvalidCompactTarget.into());
+            }
+        };
         let epoch_difficulty_trend =
             EpochDifficultyTrend::new(&start_epoch_difficulty, &end_epoch_difficulty);
         Ok(epoch_difficulty_trend.check_tau(tau, epochs_switch_count))
@@ -995,6 +1001,18 @@ pub(crate) fn verify_total_difficulty(
 
     let total_difficulty = end_total_difficulty - start_total_difficulty;
     let start_block_difficulty = &compact_to_difficulty(start_compact_target);
+
+    // The epochs are provided by a remote peer, they could be unordered or ill-formed.
+    if start_epoch.number() > end_epoch.number()
+        || (start_epoch.number() == end_epoch.number() && start_epoch.index() > end_epoch.index())
+        || start_epoch.index() >= start_epoch.length()
+    {
+        let errmsg = format!(
+            "failed since the epochs ([{:#},{:#}]) are unordered or ill-formed",
+            start_epoch, end_epoch
+        );
+        return Err(errmsg);
+    }
 
     if start_epoch.number() == end_epoch.number() {
         let total_blocks_count = end_epoch.index() - start_epoch.index();
